@@ -214,3 +214,49 @@ Theorem C10_gen_register : forall st name B sz rr, nalloc st < 2 ^ 30 -> 0 <= sz
     (nalloc st <= id -> id = nalloc st /\ base = rr /\ rsz = (2 * nalloc st + 1) * sz /\ nalloc st' = 2 * nalloc st + 1).
 Proof. exact gen_register_model. Qed.
 Print Assumptions C10_gen_register.
+
+(* ===== T1 for a parallel path: the ownership ledger of the binary notify recursion ================================== *)
+(* Gen/LedgerC10.v is regenerated on every run from sc_notify_recursive (src/sc_notify.c, compiled with SC_ENABLE_MPI): the
+   list of ownership events (sc_array_new / init / reset / destroy / resize / push / sc_notify_merge / struct assignment) on
+   the arrays `array` (the caller's), `sendbuf`, `recvbuf`, `morebuf` of one level of the recursion, as a function of the
+   values c 0, c 1, .. of its branch conditions.  C10/LedgerModel.v executes such a list on an abstract state (which
+   variable holds which block, live blocks, live heap structs): a use before initialisation or after free and a double
+   free stop the run, a block that nobody frees is still live at the end.
+
+   For EVERY valuation of the branch conditions (every communicator size, rank and level, with or without the second
+   message of a rank whose upper neighbour has no partner), entered with the caller's array holding a block or empty:
+   the run goes through, sendbuf / recvbuf and their structs are returned, and the only live block left is the one the
+   caller's array holds - "the counters are where they started plus what the caller still holds". *)
+From Coq Require Import String.
+From ScV Require Import C10.LedgerModel Gen.LedgerC10 C10.LedgerProofs.
+
+Theorem C10_gen_notify_recursive_ledger : forall c : nat -> bool,
+  balanced_run "array" (notify_recursive_ledger_b c) (entry_own "array") = true /\
+  balanced_run "array" (notify_recursive_ledger_b c) (entry_empty "array") = true.
+Proof. exact notify_recursive_ledger_balanced. Qed.
+Print Assumptions C10_gen_notify_recursive_ledger.
+
+(* the statements of the level in front of that slice do nothing to any array but hand the caller's array to the
+   recursive call (which, by the theorem above and induction on the level, returns it the same way) *)
+Theorem C10_gen_notify_recursive_prefix : forall c : nat -> bool,
+  only_uses "array" (notify_recursive_prefix_b c) = true.
+Proof. exact notify_recursive_prefix_only_uses. Qed.
+Print Assumptions C10_gen_notify_recursive_prefix.
+
+(* what "balanced" says in terms of the counters: after a balanced run no heap struct is live and the live blocks are
+   exactly the (at most one) block of the caller's array *)
+Theorem C10_ledger_balanced_meaning : forall a l st, balanced_run a l st = true ->
+  exists st', l_run l st = Some st' /\ l_heap st' = [] /\
+    (l_live st' = [] /\ l_lookup a (l_vars st') = Empty \/ exists b, l_live st' = [b] /\ l_lookup a (l_vars st') = Own b).
+Proof. exact balanced_run_meaning. Qed.
+Print Assumptions C10_ledger_balanced_meaning.
+
+(* the model is not vacuous: overwriting an array that holds a block (struct assignment or a second init) without a reset
+   in between is seen as a block that stays live, a reset of the stale copy as a double free *)
+Example C10_ledger_sees_overwrite :
+  balanced_run "array" [LInit "m"; LGrow "m"; LCopy "array" "m"] (entry_own "array") = false /\
+  balanced_run "array" [LInit "m"; LReset "array"; LCopy "array" "m"] (entry_own "array") = true /\
+  balanced_run "array" [LInit "m"; LReset "array"; LCopy "array" "m"; LReset "m"; LReset "array"] (entry_own "array") = false /\
+  balanced_run "array" [LNew "s"; LUse "s"] (entry_own "array") = false /\
+  balanced_run "array" [LNew "s"; LDestroy "s"; LUse "s"] (entry_own "array") = false.
+Proof. vm_compute. repeat split. Qed.
